@@ -55,7 +55,7 @@ func genForm(t *rapid.T, kind string, v6 bool, relaxed bool) FormSpec {
 	if !rapid.Bool().Draw(t, "noncanonical") {
 		return f
 	}
-	f.Quote = oneOf(t, "quote", "", "min", "full", "ext", "plus")
+	f.Quote = oneOf(t, "quote", "", "min", "full", "ext", "ext0", "ext2", "plus")
 	if !v6 {
 		f.OuterOpts = oneOf(t, "outer_opts", 0, 0, 1, 2, 5, 10)
 		f.QCsum = oneOf(t, "q_csum", "", "", "stale")
